@@ -1323,32 +1323,43 @@ func (c *IPAMController) garbageCollectKnownLeaks() error {
 	// limit the number of concurrent IPs we attempt to release at once.
 	maxBatchSize := 10000
 
-	var opts []ipam.ReleaseOptions
-	leaks := map[string]*allocation{}
+	// Final check that each allocation is leaked. We prefer the cache when the hosting node has been
+	// deleted, as we're reasonably confident this is a leak. Otherwise, we go to the API server directly for extra confidence
+	// that the Pod is actually gone. Do this for every confirmed leak before looking at handles below, so that the
+	// per-handle decision sees the final state of all of the handle's addresses.
 	for id, a := range c.confirmedLeaks {
-		logc := log.WithFields(a.fields())
-
-		// Final check that the allocation is leaked. We prefer the cache when the hosting node has been
-		// deleted, as we're reasonably confident this is a leak. Otherwise, we go to the API server directly for extra confidence
-		// that the Pod is actually gone.
 		if c.allocationIsValid(a, a.knode == "") {
-			logc.Info("Leaked IP has been resurrected after querying latest state")
+			log.WithFields(a.fields()).Info("Leaked IP has been resurrected after querying latest state")
 			delete(c.confirmedLeaks, id)
 			a.markValid()
-			continue
 		}
+	}
 
+	// Group the remaining leaks by handle, keeping only handles whose IPs are all confirmed leaks.
+	var handles []string
+	leaksByHandle := map[string][]*allocation{}
+	for _, a := range c.confirmedLeaks {
 		// Ensure that all of the IPs with this handle are in fact leaked.
 		if !c.handleTracker.isConfirmedLeak(a.handle) {
-			logc.Debug("Some IPs with this handle are still valid, skipping")
+			log.WithFields(a.fields()).Debug("Some IPs with this handle are still valid, skipping")
 			continue
 		}
+		if _, ok := leaksByHandle[a.handle]; !ok {
+			handles = append(handles, a.handle)
+		}
+		leaksByHandle[a.handle] = append(leaksByHandle[a.handle], a)
+	}
 
-		opts = append(opts, a.ReleaseOptions())
-		leaks[a.ReleaseOptions().Address] = a
-
-		if len(opts) >= maxBatchSize {
+	// Build the batch from whole handles only: either all of a handle's IPs are released together, or none are.
+	var opts []ipam.ReleaseOptions
+	leaks := map[string]*allocation{}
+	for _, handle := range handles {
+		if len(opts) > 0 && len(opts)+len(leaksByHandle[handle]) > maxBatchSize {
 			break
+		}
+		for _, a := range leaksByHandle[handle] {
+			opts = append(opts, a.ReleaseOptions())
+			leaks[a.ReleaseOptions().Address] = a
 		}
 	}
 
